@@ -109,6 +109,11 @@ CONSTANTS
   SharedKey,       \* every address hashes to one key
   ChargeBeforeFit  \* serveHitFromWire pays the entry token before the size / DNSSEC-fit gate (wireChainMismatch)
 
+(* one more mutant switch, an overridable definition so the generated configs need no new constant (cfg of the negative
+   config: WireSkipsStore <- MutOn): the WIRE transcription of the "mismatched cookie over a stream" branch falls to the
+   shared limiter tail of serveWire and so loses its post-Next cookie store (the decoded body keeps it) *)
+WireSkipsStore == FALSE
+
 Bkts == Clients \X Forms
 None == <<"-", "-">>                      \* no cookie
 AEnv == <<"env", "-">>
@@ -338,6 +343,7 @@ Down(p) ==
       declines == r.entry \in {"wire", "inline"} /\ Wirable(r) /\ ~Fits(r)
       rck == IF HasCookie(r) THEN <<r.c, r.cc>> ELSE None
       after(k) == IF br[p] \in {"free", "plainstore"}
+                       /\ ~(WireSkipsStore /\ br[p] = "plainstore" /\ r.entry \in {"wire", "inline"} /\ Wirable(r))
                     THEN /\ pc' = [pc EXCEPT ![p] = "post"]
                          /\ res' = [res EXCEPT ![p] = k]
                          /\ UNCHANGED snap
@@ -487,6 +493,14 @@ ReplyCookieIsOwn ==
   \A p \in Procs : (Done(p) /\ res[p].rck # None) => (HasCookie(req[p]) /\ res[p].rck = <<req[p].c, req[p].cc>>)
 AnswerCarriesCookie ==
   \A p \in Procs : (Done(p) /\ res[p].kind \in {"answer", "badcookie"} /\ HasCookie(req[p])) => res[p].rck # None
+(* a request that carried a usable cookie and got past the limiter leaves the server cookie it was handed remembered,
+   whichever entry served it (the decoded body stores after ch.Next in the verified and in the mismatch-over-a-stream
+   branch, and before BADCOOKIE): the client's next query echoing that cookie verifies on every entry alike.  A replay
+   pass that carries the mark skips the limiter; an inline call the strict parser refuses never ran the chain. *)
+CookieRemembered ==
+  \A p \in Procs : (Done(p) /\ HasCookie(req[p]) /\ req[p].ex = "none" /\ res[p].kind # "drop"
+                    /\ ~(req[p].entry = "replay" /\ req[p].ran) /\ ~(req[p].entry = "inline" /\ ~Wirable(req[p])))
+                   => res[p].st
 (* BADCOOKIE: UDP only, only for a cookie that does not verify, costs a token, reaches nothing below *)
 BadCookieSound ==
   \A p \in Procs : (Done(p) /\ res[p].kind = "badcookie") =>
